@@ -267,7 +267,7 @@ int lha_input_stream_skip(LHAInputStream *stream, size_t bytes)
 
 			result = do_read(stream, data, len);
 
-			if (result < 0) {
+			if (result <= 0) {
 				return 0;
 			}
 
